@@ -84,6 +84,11 @@ def _optsig(o):
     return '+'.join(keys) or 'none'
 
 
+# one option set per layout filter (strip_comments and the other targeted options are C08's subject: they change
+# tokens by design)
+LAYOUT_SINGLE = [o for o in options.SINGLE_FILTER if set(o) <= set(k for k, _ in options.LAYOUT)][:5]
+
+
 def run(tier, seed):
     seeds = list(range(len(grammar.SEEDS)))
     lay1 = options.sets_within(options.LAYOUT, 1)
@@ -93,16 +98,16 @@ def run(tier, seed):
         blocks.append(('<=1 of {derivation, comment-in-gap, literal spelling, uniform style} x <=1 layout option',
                        {'der', 'cm', 'lit', 'style', 'wstyle'}, 1, lay1))
         blocks.append(('seed x <=2 layout options', set(), 0, lay2))
-        blocks.append(('<=1 optional-gap toggle x one-per-filter sets', {'ws0'}, 1, options.SINGLE_FILTER[:5]))
+        blocks.append(('<=1 optional-gap toggle x one-per-filter sets', {'ws0'}, 1, LAYOUT_SINGLE))
     else:
-        blocks.append(('<=2 comments in gaps x one-per-filter layout sets', {'cm'}, 2, options.SINGLE_FILTER[:5]))
+        blocks.append(('<=2 comments in gaps x one-per-filter layout sets', {'cm'}, 2, LAYOUT_SINGLE))
         blocks.append(('<=2 of {literal spelling, uniform style} x <=1 layout option', {'lit', 'style', 'wstyle'}, 2, lay1))
         blocks.append(('<=1 of {derivation, comment-in-gap, literal spelling, uniform style} x <=1 layout option',
                        {'der', 'cm', 'lit', 'style', 'wstyle'}, 1, lay1))
         blocks.append(('<=1 of {derivation, comment} x <=2 layout options', {'der', 'cm', 'style', 'lit'}, 1, lay2))
         blocks.append(('seed x full layout product (776 sets)', set(), 0, options.layout_product()))
         blocks.append(('<=2 of {optional-gap toggle, whitespace respelling} x one-per-filter sets',
-                       {'ws0', 'ws'}, 2, options.SINGLE_FILTER[:5]))
+                       {'ws0', 'ws'}, 2, LAYOUT_SINGLE))
     viols, vc = [], None
     n_eval = n_dist = fcalls = 0
     report, samples = [], []
